@@ -224,9 +224,40 @@ class ShimThread:
         self._ex().point('Thread.join', None, enabled_fn=lambda: ct is None or ct.finished)
 
 
+class ShimLock:
+    def __init__(self, ex_ref):
+        self._ex = ex_ref
+        self._locked = False
+
+    def acquire(self, blocking=True, timeout=-1):
+        self._ex().point('Lock.acquire', None, enabled_fn=lambda: not self._locked)
+        self._locked = True
+        return True
+
+    def release(self):
+        self._locked = False
+        self._ex().point('Lock.release')
+
+    def locked(self):
+        return self._locked
+
+    def __enter__(self):
+        self.acquire()
+        return self
+
+    def __exit__(self, *a):
+        self.release()
+
+
 class ShimThreading:
     def __init__(self, ex_ref):
         self._ex = ex_ref
+
+    def Lock(self):
+        return ShimLock(self._ex)
+
+    def RLock(self):
+        return ShimLock(self._ex)
 
     def Event(self):
         return ShimEvent(self._ex)
